@@ -29,7 +29,9 @@ Definition oob_ok (x : list N * option ucred * list N * (list N * option ucred))
     data is attached, and reports a zero-length read as EOF: both are part of the model. *)
 Inductive rop :=
 | OSend (n : nat) (fds : list nat) (cred : bool) (refused : bool)   (* refused: sendmsg fails (a descriptor that is not open) *)
-| ORecv (buf : nat).
+| ORecv (buf : nat)
+| ORecvRoom (buf room : nat).   (* the receiving process can take only [room] more descriptors (RLIMIT_NOFILE): the kernel
+                                   installs those that fit, drops the rest and flags the control data as truncated *)
 
 Inductive robs :=
 | BErr                                       (* the call returned an error *)
@@ -55,6 +57,15 @@ Fixpoint raw_run (q : list packet) (ops : list rop) : list robs :=
       | [] => BErr :: raw_run q r
       | p :: q' =>
           match recv_msg true (deliver buf 253 p) with
+          | ROk data fds c => (if Nat.eqb (length data) 0 then BErr else BOk (length data) fds true) :: raw_run q' r
+          | RErr _ _ => BErr :: raw_run q' r
+          end
+      end
+  | ORecvRoom buf room :: r =>
+      match q with
+      | [] => BErr :: raw_run q r
+      | p :: q' =>
+          match recv_msg true (deliver buf (Nat.min 253 room) p) with
           | ROk data fds c => (if Nat.eqb (length data) 0 then BErr else BOk (length data) fds true) :: raw_run q' r
           | RErr _ _ => BErr :: raw_run q' r
           end
